@@ -295,6 +295,13 @@ func (fr *Frame) applyContract(ct *Contract, key string, sig *types.Signature, f
 			post.layer = nil
 			u.epochAlloc[post.epoch] = a
 			fr.preserveLocals(pre, post)
+			// "everything" includes the ghost state (epochs only move forward)
+			for g, old := range post.ghost {
+				post.ghost[g] = u.fresh("g!"+g, old.Sort)
+				if g == "epoch" {
+					u.assume(True, Ge(post.ghost[g], old))
+				}
+			}
 		} else {
 			// new layer: untouched heaps agree on old objects
 			post.layer = &heapLayer{prevHeaps: pre.heaps, prevEpoch: pre.epoch, prevLayer: pre.layer, allocOld: pre.alloc, allocNew: a}
@@ -351,6 +358,9 @@ func (fr *Frame) applyContract(ct *Contract, key string, sig *types.Signature, f
 		}
 		for i := 0; i < len(pn); i++ {
 			if mc, ok := closures[i-off]; ok && i-off >= 0 {
+				if fn != nil && !ct.Trusted && i < len(fn.Params) && !paramInvoked(fn.Params[i], 0) {
+					continue // the callee only stores/captures the function value; it is not run during this call
+				}
 				post = fr.runCallbackLoop(mc, ct, pn[i], post, pos, key)
 				if post == nil {
 					return nil, nil
@@ -384,8 +394,12 @@ func (u *Unit) verifyRoot() {
 	u.assume(True, Ge(st.alloc, IntLit(0)))
 	u.epochAlloc[0] = st.alloc
 	st.held = u.fresh("held0", ArraySort(SLoc, SInt))
-	for _, p := range fn.Params {
-		t := u.declareOnce("p:"+p.Name(), u.w.sortOf(p.Type()))
+	for pi, p := range fn.Params {
+		pname := p.Name()
+		if pname == "_" || pname == "" {
+			pname = fmt.Sprintf("_%d", pi)
+		}
+		t := u.declareOnce("p:"+pname, u.w.sortOf(p.Type()))
 		fr.regs[p] = t
 		fr.assumeTypeInv(st, t, p.Type())
 	}
@@ -521,6 +535,23 @@ func (fr *Frame) checkFrame(ct *Contract, end *State, names map[string]tval) {
 	}
 	if everything {
 		return
+	}
+	// ghost state: a ghost variable that may differ at the exit must be listed as ghost(NAME)
+	if u.implOf == "" {
+		listed := map[string]bool{}
+		for _, g := range ghostModifies(ct.Modifies) {
+			listed[g] = true
+		}
+		for _, g := range sortedKeys(end.ghost) {
+			if listed[g] || g == "epoch" || strings.HasPrefix(g, "visited") {
+				continue
+			}
+			old, ok := fr.entry.ghost[g]
+			if !ok || old.S == end.ghost[g].S {
+				continue
+			}
+			u.oblige(fr, "frame", fr.fn.Pos(), "ghost "+g+" changes only if listed in modifies", end.pc, Eq(end.ghost[g], old), false)
+		}
 	}
 	if end.epoch != fr.entry.epoch {
 		u.oblige(fr, "frame", fr.fn.Pos(), "calls with unknown effects, but the contract has no 'modifies *'", end.pc, False, false)
@@ -712,4 +743,86 @@ func (fr *Frame) closureVarName(mc *ssa.MakeClosure) string {
 		}
 	}
 	return ""
+}
+
+// paramInvoked: may the function-typed parameter be called during the activation of its function?
+// (false only if every use is a capture by a closure that is itself not invoked here, or a plain store)
+func paramInvoked(p *ssa.Parameter, depth int) bool {
+	refs := p.Referrers()
+	if refs == nil {
+		return false
+	}
+	for _, r := range *refs {
+		switch x := r.(type) {
+		case *ssa.DebugRef:
+		case *ssa.MakeClosure:
+			// captured: the inner closure may call it later; it is called now only if the inner closure is
+			if closureInvokedHere(x, depth+1) {
+				return true
+			}
+		case *ssa.Store:
+			if x.Val == ssa.Value(p) {
+				// stored into a local cell (captured variable): look at the cell's other uses
+				if al, ok := x.Addr.(*ssa.Alloc); ok {
+					if allocFuncInvoked(al, depth+1) {
+						return true
+					}
+					continue
+				}
+				return true
+			}
+		default:
+			return true
+		}
+	}
+	return false
+}
+
+func closureInvokedHere(mc *ssa.MakeClosure, depth int) bool {
+	if depth > 4 {
+		return true
+	}
+	refs := mc.Referrers()
+	if refs == nil {
+		return false
+	}
+	for _, r := range *refs {
+		switch x := r.(type) {
+		case *ssa.DebugRef:
+		case *ssa.Return:
+		case *ssa.Store:
+			if _, ok := x.Addr.(*ssa.Alloc); !ok {
+				return true
+			}
+		default:
+			return true
+		}
+	}
+	return false
+}
+
+func allocFuncInvoked(al *ssa.Alloc, depth int) bool {
+	if depth > 4 {
+		return true
+	}
+	refs := al.Referrers()
+	if refs == nil {
+		return false
+	}
+	for _, r := range *refs {
+		switch x := r.(type) {
+		case *ssa.DebugRef, *ssa.Store:
+		case *ssa.MakeClosure:
+			if closureInvokedHere(x, depth+1) {
+				return true
+			}
+		case *ssa.UnOp:
+			// loaded: conservatively assume the loaded value is called
+			_ = x
+			return true
+		default:
+			return true
+		}
+	}
+	return false
 }
